@@ -93,6 +93,7 @@ Proof.
   - inversion H; subst. apply allok_pc; assumption.
   - eapply allok_enter_clear; eauto.
   - eapply allok_enter_exit; eauto.
+  - inversion H; subst. apply allok_pc; assumption.
 Qed.
 
 Lemma allok_add s x : AllOk s -> cok x -> k_got x = [] -> k_eof x = false -> AllOk (add_ctx s x).
@@ -202,9 +203,12 @@ Proof.
     eapply allok_on_ctx_r; [exact A| |eassumption]. use_local_r l_release_ok l_release_same.
   - inversion H; subst; assumption.
   - break H. apply allok_pc; assumption.
+  - (* cb_wake *) break H. apply allok_pc; assumption.
   - (* tau release *) break H. eapply allok_after_rel; [|eassumption].
     eapply allok_on_ctx_r; [exact A| |eassumption]. use_local_r l_release_ok l_release_same.
   - (* tau break *) break H. eapply allok_enter_clear; [|eassumption]. apply allok_lists; assumption.
+  - (* wake begin *) break H. apply allok_pc; assumption.
+  - (* wake unlock *) break H. apply allok_pc; assumption.
 Qed.
 
 Lemma init_allok : AllOk init.
@@ -263,7 +267,8 @@ End Theorems.
    fragments, is retained by a worker, the peer closes, the loop closes it and drops its
    reference silently, the worker's release is the last one and frees; exit clears the listener *)
 Definition demo_history : list ev :=
-  [EHalloc KListen 0; EHand 0; EReg 0 true; EAddctx 0; EAccepted; EAlloc 1; EReg 1 true; EConn 1 5;
+  [EHalloc KListen 0; EHand 0; ETauWakeBegin; EReg 0 true; EAddctx 0; ETauWakeUnlock; EWake;
+   EAccepted; EAlloc 1; EReg 1 true; EConn 1 5;
    ESend 5 [1;2;3]%Z; EMsg 1; ERd 1 [1;2]%Z; ERetain 1; ERd 1 [3]%Z; EPclose 5; ERdEof 1; EClose 1; ETauRel;
    EWrel 1; EWrelease 1; EFdclose 1; EWfree 1; EExitreq; ETauBreak; ERelease 0; EFdclose 0; EFree 0; EReturned].
 Example demo_run :
@@ -275,9 +280,11 @@ Example demo_run :
 Proof. vm_compute. repeat split; reflexivity. Qed.
 (* the accept path's registration failure frees without announcing; the hand-over's releases *)
 Example demo_failures :
-  let s := run init [EHalloc KListen 0; EHand 0; EReg 0 true; EAddctx 0; EAccepted; EAllocfail; EFdcloseNew;
+  let s := run init [EHalloc KListen 0; EHand 0; ETauWakeBegin; EReg 0 true; EAddctx 0; ETauWakeUnlock; EWake;
+                     EAccepted; EAllocfail; EFdcloseNew;
                      EAccepted; EAlloc 1; EReg 1 false; EFree 1; EFdclose 1;
-                     EHalloc KConn 7; EHand 2; EReg 2 false; ERelease 2; EFdclose 2; EFree 2] in
+                     EHalloc KConn 7; EHand 2; ETauWakeBegin; EReg 2 false; ERelease 2; EFdclose 2; EFree 2;
+                     ETauWakeUnlock; EWake] in
   pc s = PIdle /\
   map (fun x => (k_ann x, k_nrel x, k_nfdc x, k_nfree x, k_freed x, k_ref x)) (ctxs s)
     = [(1, 0, 0, 0, false, 1%Z); (0, 0, 1, 1, true, 1%Z); (0, 1, 1, 1, true, 0%Z)].
